@@ -74,6 +74,13 @@ theorem reference_reads_our_public_keys (logn N : Nat) (hN : (logn = 9 ∧ N = 5
   unfold RefEq.oursPk
   rw [hrt]
 
+/-- what this side sends to the reference verifier is an honest signature of the hashed salt: the loop structure of
+    `sign` as extracted (retry iff norm > bound; the salt buffer is filled once, before hashing, and not again on a
+    compression retry) — the same pins as C01, because a signature that does not verify here cannot verify there -/
+theorem signatures_sent_are_honest :
+    Gen.signNormRetryGt = true ∧ Gen.signSaltFills = 1 ∧ Gen.signSaltWrites = 2 ∧ Gen.signSaltBeforeHash = true :=
+  ⟨rfl, rfl, rfl, rfl⟩
+
 /-- non-vacuity: both sides decode the all-zero Falcon-512 public key to the zero polynomial -/
 example : RefFormat.pkDecode 9 (9 :: List.replicate 896 0) = some (List.replicate 512 0) := by decide +kernel
 
